@@ -43,7 +43,10 @@ fn random_name(c: &mut Choice) -> Vec<u8> {
 
 /// Name set with duplicates, the empty name, hash collisions, low-bit neighbours and same-bucket names.
 fn gen_names(c: &mut Choice, f: Flavor, nbucket: u32) -> Vec<Vec<u8>> {
+    // (rarely a very large set: thousands of symbols on a handful of chains)
+    let huge = c.u8() == 0xC3 && c.u8() >= 200;
     let n = match c.below(16) {
+        _ if huge => 4200 + c.below(3000) as usize,
         0 => 0,
         1 | 2 => 1 + c.below(3) as usize,
         3..=10 => 2 + c.below(12) as usize,
@@ -51,15 +54,21 @@ fn gen_names(c: &mut Choice, f: Flavor, nbucket: u32) -> Vec<Vec<u8>> {
         _ => 60 + c.below(241) as usize,
     };
     let mut names: Vec<Vec<u8>> = vec![];
-    for _ in 0..n {
+    for i in 0..n {
+        if huge {
+            names.push(vec![b'h', 1 + (i % 250) as u8, 1 + (i / 250 % 250) as u8, b'x']);
+            continue;
+        }
         let k = c.below(12);
         let prev = if names.is_empty() { None } else { Some(names[c.idx(names.len())].clone()) };
         let nm: Vec<u8> = match (k, prev) {
             (0, _) => vec![],
             (1, Some(p)) => p,
+            // a proper suffix of an earlier name (string tables merge tails)
+            (8, Some(p)) if p.len() >= 2 => p[1 + c.idx(p.len() - 1)..].to_vec(),
             // GNU: a longer name with the same hash that has an earlier name as proper prefix; a name whose hash is 0 or 1
-            (6, Some(p)) if f == Flavor::Gnu => refs::djb2_extend_collide(&p, c.u16() as u32).unwrap_or(p),
-            (7, _) if f == Flavor::Gnu && c.chance(128) => refs::djb2_suffix_to(b"", c.below(2) as u32, c.u16() as u32).unwrap_or_else(|| random_name(c)),
+            (6, Some(p)) if f == Flavor::Gnu && c.chance(90) => refs::djb2_extend_collide(&p, c.u16() as u32).unwrap_or(p),
+            (7, _) if f == Flavor::Gnu && c.chance(50) => refs::djb2_suffix_to(b"", c.below(2) as u32, c.u16() as u32).unwrap_or_else(|| random_name(c)),
             // SysV: names that drive the running hash to 0x0fffffff before the next shift (low-nibble-f bytes)
             (6, _) if f == Flavor::SysV => {
                 let mut v = vec![*c.pick(&[0x0fu8, 0x1f, 0xff, 0x7f]); 6 + c.below(3) as usize];
@@ -99,12 +108,29 @@ fn gen_names(c: &mut Choice, f: Flavor, nbucket: u32) -> Vec<Vec<u8>> {
             _ => random_name(c),
         };
         names.push(nm);
+        if f == Flavor::Gnu && c.u8() >= 250 && !names[names.len() - 1].is_empty() {
+            let p = names[names.len() - 1].clone();
+            let mut pre = p.clone();
+            pre.push(0);
+            if let Some(full) = refs::djb2_suffix_to(&pre, refs::djb2(&p), c.u16() as u32) {
+                names.push(full[pre.len()..].to_vec());
+            }
+        }
     }
     names
 }
 
 fn gen_queries(c: &mut Choice, f: Flavor, names: &[Vec<u8>], nbucket: u32) -> Vec<Vec<u8>> {
-    let mut q: Vec<Vec<u8>> = names.to_vec();
+    let mut q: Vec<Vec<u8>> = if names.len() > 400 {
+        // first, last and a spread of names (every chain depth is reached by some of them)
+        let step = names.len() / 48 + 1;
+        let mut v: Vec<Vec<u8>> = names.iter().step_by(step).cloned().collect();
+        v.push(names[names.len() - 1].clone());
+        v.push(names[1.min(names.len() - 1)].clone());
+        v
+    } else {
+        names.to_vec()
+    };
     let extra = 2 + c.below(10) as usize;
     for _ in 0..extra {
         if names.is_empty() {
@@ -174,6 +200,7 @@ fn build(c: &mut Choice, f: Flavor) -> (Built, Vec<Vec<u8>>) {
         _ => 1 + c.below(17) as u32,
     };
     let mut names = gen_names(c, f, nbucket);
+    let nbucket = if names.len() > 400 { 1 + nbucket % 3 } else { nbucket };
     let share = c.bool();
     let seed = c.u16() as u64;
     match f {
@@ -227,10 +254,17 @@ fn oracle_wellformed(case: &[u8], obs: &mut Obs, f: Flavor) -> Result<(), String
     let mut hits = 0u64;
     let mut absent_colliding = 0u64;
     let mut absent = 0u64;
-    for q in &queries {
-        if q.contains(&0) {
-            continue;
+    let mut queries = queries;
+    // queries spelling two adjacent string-table entries with the NUL between them
+    for w in b.all.windows(2).take(40) {
+        if !w[0].is_empty() && !w[1].is_empty() {
+            let mut q = w[0].clone();
+            q.push(0);
+            q.extend_from_slice(&w[1]);
+            queries.push(q);
         }
+    }
+    for q in &queries {
         let present: Vec<usize> = (b.first_hashed..b.all.len()).filter(|i| &b.all[*i] == q).collect();
         let r = with_endian!(b.spec, |e| find(f, e, class, &b.hash, &b.tab.symtab, &b.tab.strtab, q));
         let ctx = || format!("{} {} {} [{}] with {} symbols, query {:?}", b.enc.name(), SPEC_NAMES[b.spec as usize], fname, b.params, b.all.len(), String::from_utf8_lossy(q));
